@@ -709,12 +709,12 @@ Fixpoint all_m (l : list val) : option bool :=
   | x :: r => b <- as_bool x ;; if b then all_m r else Some false
   end.
 
-(** ** sum: foldl(+, arr, 0) over numbers.  The IMPL-MODEL is Rust's `iter().sum::<f64>()`,
-    whose neutral element is -0.0 *)
+(** ** sum: foldl(+, arr, 0) over numbers.  math.rs builtin_sum / arrays.rs builtin_avg fold from
+    0.0 (since fix b7c8f41; `Iterator::sum::<f64>()` started from -0.0) *)
 Definition sum_from (init : val) (l : list val) : option val :=
   fold_left (fun acc x => a <- acc ;; if is_num x then add_num a x else None) l (Some init).
 Definition sum_spec := sum_from (VNum 0).
-Definition sum_impl := sum_from VNegZero.
+Definition sum_impl := sum_from (VNum 0).
 
 (** ** minArray / maxArray: first element whose key is extreme; comparisons current-vs-next *)
 Fixpoint top1_go (k : option fn) (want : comparison) (cur ck : val) (l : list val) : option val :=
@@ -867,7 +867,7 @@ Definition avg_with (sum : list val -> option val) (arr : val) (on_empty : optio
   | _ =>
       s <- sum l ;;
       match s with
-      | VNegZero => Some (OVal VNegZero)          (* -0 / n *)
+      | VNegZero => Some (OVal VNegZero)          (* -0 / n: unreachable from a +0 start *)
       | _ => Some (OFrac (numz0 s) (Z.of_nat (length l)))
       end
   end.
@@ -984,8 +984,6 @@ Definition sets_ok (k : option fn) (a b : val) : bool :=
   | _, _ => true       (* a non-array argument: a documented type error *)
   end.
 
-Definition all_neg_zero (arr : val) : bool :=
-  match arr with VArr l => forallb (fun x => match x with VNegZero => true | _ => false end) l | _ => false end.
 Definition has_str (arr : val) : bool :=
   match arr with VArr l => existsb (fun x => match x with VStr _ => true | _ => false end) l | _ => false end.
 
@@ -1007,15 +1005,6 @@ Definition judge (c : call) : judgement :=
   | _ => JSpec
   end.
 
-(** known finding C10-sum-empty-negzero: the input class on which the faithful model of
-    std.sum / std.avg leaves the documented definition *)
-Definition known_sum_negzero (c : call) : bool :=
-  match c with
-  | CSum arr => all_neg_zero arr
-  | CAvg (VArr (x :: l)) _ => all_neg_zero (VArr (x :: l))
-  | _ => false
-  end.
-
 (** one case of the correspondence check *)
-Definition run_case (c : call) : option out * option out * judgement * bool :=
-  (spec_call c, impl_call c, judge c, known_sum_negzero c).
+Definition run_case (c : call) : option out * option out * judgement :=
+  (spec_call c, impl_call c, judge c).
